@@ -12,7 +12,7 @@ EXPLANATION = ('Decides: (CLOSE-HDR) every container close hook, in write and re
 NOT_DECIDED = ['frame count arithmetic for block codecs and padding', 'sample rate representability', 'codec id agreement for containers whose codes are anonymous literals (CAF, VOC, PAF, IRCAM, MAT4/5, SVX, NIST)']
 ASSUMPTIONS = ['psf_get_filelen returns the real size (C14/C15)']
 
-NO_LENGTH = {'ircam_close': 'IRCAM header has no length field', 'pvf_close': 'PVF header has no length field', 'xi_close': 'XI length is written by the header writer from the sample header',
+NO_LENGTH = {'ircam_close': 'IRCAM header has no length field', 'pvf_close': 'PVF header has no length field', 'xi_close': 'the XI sample-size field is not rewritten at close; the reader ignores it and derives the length from the file size (replayed: 1000 frames written, 1000 after re-open)',
              'sd2_close': 'SD2 writes its resource fork instead', 'paf24_close': 'codec hook (PAF header carries no length)'}
 CALC_EXC = {'ircam_write_header': 'no length in header', 'paf_write_header': 'no length in header', 'pvf_write_header': 'no length in header', 'xi_write_header': 'length from sample header',
             'htk_write_header': 'sample count computed from filelength inline', 'sds_write_header': 'frame count kept by the block codec (total_written)'}
@@ -45,6 +45,52 @@ def close_hdr(ctx, prog):
         ctx.ob('CLOSE-HDR', f.name, ok, f.loc(calls[0]) if calls else f.loc(f.body), 'header rewrite %s' % (
             'with SF_TRUE, reached in write mode%s' % (', after the tailer' if tail else '') if ok else
             ('MISSING' if not calls else 'not with SF_TRUE' if not okarg else 'not reached in write mode' if not feasible else 'happens BEFORE the tailer is written')), None)
+
+
+
+def tail_rules(ctx, prog):
+    wh = {f.name: f for f in prog.slot_fns('write_header')}
+    # ---- containers that put chunks after the audio (tailer writers)
+    ctx.rule('TAIL-STALE', 'for every container with a *_write_tailer: when psf->dataend is unknown (cleared by a write) and the encoding is sample granular, the calc_length block takes the data length from '
+             'the frame count (sf.frames * bytewidth * channels), not from the file length — in SFM_RDWR mode stale chunks of the previous session may still follow the data and must not be counted '
+             'as audio (frozen exception: AIFF refuses RDWR unless SSND is the last chunk)', floor=4)
+    ctx.rule('TAILER-DATAEND', 'in every *_write_tailer psf->dataend is the end of the audio data: assigned from psf_fseek (psf, 0, SEEK_END) or dataoffset + datalength before anything is written, never '
+             'advanced afterwards (a pad byte is not data)', floor=4)
+    tailers = [f for f in prog.lib_fns() if f.name.endswith('_write_tailer')]
+    ctx.require(len(tailers) >= 4, 'only %d tailer writers found' % len(tailers))
+    for t in sorted(tailers, key=lambda f: f.file):
+        base = t.file.split('/')[-1]
+        # TAILER-DATAEND
+        bad = []
+        n_as = 0
+        for lv, a, r in assigned_lvalues(t):
+            if lv != 'psf->dataend':
+                continue
+            n_as += 1
+            rs = t.s(r) if r is not None else None
+            if a['k'] == 'UnaryOperator' or a.get('op') != '=' or rs not in ('psf_fseek(psf, 0, 2)', 'psf_fseek(psf, 0, SEEK_END)', '(psf->dataoffset + psf->datalength)'):
+                bad.append((a, rs))
+        ctx.ob('TAILER-DATAEND', t.name, not bad, t.loc(bad[0][0]) if bad else t.loc(t.body), '%d assignment(s) of psf->dataend, all end-of-audio positions' % n_as if not bad else
+               'psf->dataend modified by `%s` (%s): bytes that are not audio (padding) are counted into the data length, the header written at close reports too many frames' % (t.s(bad[0][0])[:60], bad[0][1]), None)
+        # TAIL-STALE
+        w = [f for f in wh.values() if f.file == t.file]
+        if not w:
+            continue
+        w = w[0]
+        if base == 'aiff.c':
+            rh = prog.fn('aiff_read_header', 'aiff.c')
+            guard = any('SFE_AIFF_RW_SSND_NOT_LAST' in rh.s(n) for n in rh.walk() if n['k'] == 'ReturnStmt') or any(n.get('n') == 'SFE_AIFF_RW_SSND_NOT_LAST' for n in rh.walk())
+            ctx.ob('TAIL-STALE', w.name, guard, w.loc(w.body), 'frozen exception: aiff_read_header refuses SFM_RDWR unless SSND is the last chunk (SFE_AIFF_RW_SSND_NOT_LAST present: %s)' % guard, None)
+            continue
+        dl = [w.s(r) for lv, a, r in assigned_lvalues(w) if lv == 'psf->datalength' and r is not None]
+        want = '((psf->sf.frames * psf->bytewidth) * psf->sf.channels)'
+        arm = None
+        for n in w.walk():
+            if n['k'] == 'IfStmt' and w.s(n['cond']) == 'psf->dataend' and n.get('else') is not None:
+                if any(lv == 'psf->datalength' and r is not None and w.s(r) == want for lv, a, r in assigned_lvalues(w, n['else'])):
+                    arm = n
+        ctx.ob('TAIL-STALE', w.name, arm is not None, w.loc(arm) if arm else w.loc(w.body), 'with dataend unknown the data length is %s' % ('taken from the frame count' if arm else
+               'taken from the file length only (%s): stale chunks after the data are counted as audio by a header update in SFM_RDWR mode' % dl), None)
 
 
 
@@ -84,6 +130,8 @@ def run(ctx):
         if name not in FRAMES_EXC and '(psf->datalength / (psf->bytewidth * psf->sf.channels))' not in facts['psf->sf.frames']:
             miss.append('frames not recomputed as datalength / (bytewidth * channels) (found %s)' % facts['psf->sf.frames'])
         ctx.ob('WH-CALC', name, not miss, f.loc(blk), 'calc_length block recomputes lengths from the real file size' if not miss else '; '.join(miss), facts)
+
+    tail_rules(ctx, prog)
 
     ctx.rule('HDR-NO-POS', 'no function in the write_header slot (nor the tailer writers) reads psf->read_current / psf->write_current: header length fields derive from the frame count and data length only', floor=19)
     for name, f in sorted(wh.items()):
